@@ -753,7 +753,7 @@ class Tracer(SymEval):
                 arms = [(k, unkey(x)) for k, x in ia[3]]
                 good = [(k, x) for k, x in arms if isinstance(x, tuple) and len(x) == 3 and x[0] == "ctor" and x[1] in ("Ok", "Some") and len(x[2]) == 1]
                 bad = [(k, x) for k, x in arms if (isinstance(x, tuple) and len(x) == 3 and x[0] == "ctor" and x[1] == "Err") or x == ("variant", "None")]
-                if isinstance(o, Poly) and len(good) == 1 and len(bad) == 1 and good[0][0].startswith("('"):
+                if isinstance(o, Poly) and len(good) == 1 and len(bad) == 1:
                     m = app("matches", o, good[0][0])
                     self.events.append(Event("<return>" if self.depth == 0 else "<return-inner>", [bad[0][1]], self.loops,
                                              list(self.guards) + [(m, False)], n.get("sp"), n))
@@ -779,6 +779,15 @@ class Tracer(SymEval):
 
     def e_assign(self, n, env):
         r = self.eval(n["r"], env)
+        nm = plain_local(n["l"])
+        if nm is not None:
+            # an assignment to a plain local in expression position (a match arm `Err(e) => failure = Some(e)`)
+            if n.get("k") == "assignop":
+                r = self.arith(n["op"].replace("Assign", ""), self.eval(n["l"], env), r)
+            env[nm] = r
+            self.assigned[nm] = r
+            self.assign_sites.append((nm, r, list(self.loops), list(self.guards)))
+            return ("tuple", [])
         # a `?` inside the assigned value: the store happens only on the continuing path
         gs = list(self.guards) + [g for g, d in self._after_stmt if d == len(self.guards)]
         l = self.eval_lhs(n["l"], env)
